@@ -1,7 +1,7 @@
 """C13 Restricting the spectral grid never changes the values computed on it."""
 import ast
 
-from sa.helpers import (mkflow, spec, code, one, calls, bind_call, param_env,
+from sa.helpers import (the_return, mkflow, spec, code, one, calls, bind_call, param_env,
                         fmt, atom_of, unparse, walk_no_nested)
 from sa.index import AnalysisError
 from sa.algebra import RF, dotted
@@ -185,7 +185,7 @@ def run(ix, R):
         f = ix.func(site)
         fl = mkflow(ix, site)
         pe = param_env(fl, f, ['n', 'w'])
-        r = one(fl.of('return'), 'return')
+        r = the_return(fl)
         b = dict(pe, W=spec(fl, 'max(compute_bin_edges(w)[-1])', pe))
         lo = spec(fl, 'n >= min(w) - W', b)
         hi = spec(fl, 'n <= max(w) + W', b)
